@@ -53,7 +53,12 @@ func Multiplier[T fixed.Dx]() int64 {
 
 // From creates a new value.
 func From[T fixed.Dx, FROM xmath.Numeric](value FROM) Int[T] {
-	return Int[T](value * FROM(Multiplier[T]()))
+	switch reflect.TypeOf(value).Kind() {
+	case reflect.Float32, reflect.Float64:
+		return Int[T](value * FROM(Multiplier[T]()))
+	default:
+		return Int[T](int64(value) * Multiplier[T]())
+	}
 }
 
 // FromString creates a new value from a string.
